@@ -194,7 +194,11 @@ func c16Layout(p *chk.Prog, r *chk.Report) {
 			}
 			key = name + ":patch[" + fl.Name + "]"
 			x.OK(key+":field", s.Pos(), "")
-			switch fl.Name {
+			leaf := fl.Name // the field of a nested header struct counts by its own name
+			if i := strings.LastIndexByte(leaf, '.'); i >= 0 {
+				leaf = leaf[i+1:]
+			}
+			switch leaf {
 			case "Len":
 				seenLen = true
 				okv := definedBy(g, "safeconvert.IntToUInt16(B.Len())", chk.H("B", f.IsObj(buf)))(b["V"])
@@ -217,7 +221,7 @@ func c16Layout(p *chk.Prog, r *chk.Report) {
 			case "AttrLen", "WdrLen":
 				section := "encodePathAttrs"
 				after := "encodePrefixes"
-				if fl.Name == "WdrLen" {
+				if leaf == "WdrLen" {
 					section, after = "encodePrefixes", ""
 				}
 				vb := ast.Expr(nil)
@@ -288,8 +292,20 @@ func msgLiteral(f *chk.Fn) *ast.CompositeLit {
 		if !ok {
 			return true
 		}
-		if _, isStruct := cl.Type.(*ast.StructType); isStruct && lit == nil {
+		if lit != nil {
+			return true
+		}
+		if _, isStruct := cl.Type.(*ast.StructType); isStruct {
 			lit = cl
+			return true
+		}
+		// a named struct type of this package (the anonymous struct given a name)
+		if tv, ok := f.Info().Types[cl]; ok && tv.Type != nil {
+			if nt, isNamed := tv.Type.(*types.Named); isNamed && nt.Obj().Pkg() == f.Pkg.Types {
+				if _, isStruct := nt.Underlying().(*types.Struct); isStruct {
+					lit = cl
+				}
+			}
 		}
 		return true
 	})
